@@ -91,11 +91,17 @@ pub(super) mod udp {
     use octo_squirrel::protocol::address::Address;
     use octo_squirrel::protocol::shadowsocks::Mode;
     use octo_squirrel::protocol::shadowsocks::aead_2022::password_to_keys;
+    #[cfg(not(octo_squirrel_verif))]
     use tokio::net::UdpSocket;
+    #[cfg(octo_squirrel_verif)]
+    use octo_squirrel::verif::net::UdpSocket;
     use tokio_util::bytes::BytesMut;
     use tokio_util::codec::Decoder;
     use tokio_util::codec::Encoder;
+    #[cfg(not(octo_squirrel_verif))]
     use tokio_util::udp::UdpFramed;
+    #[cfg(octo_squirrel_verif)]
+    use octo_squirrel::verif::net::UdpFramed;
 
     use crate::client::config::SslConfig;
 
